@@ -47,12 +47,27 @@ func (c *viewClient) Group() *group.Group {
 	defer c.mu.Unlock()
 	return c.g
 }
-func (c *viewClient) Addr() net.Addr               { return nil }
-func (c *viewClient) Id() string                   { return c.id }
-func (c *viewClient) Username() string             { return c.user }
+func (c *viewClient) Addr() net.Addr { return nil }
+func (c *viewClient) Id() string {
+	if c.hook != nil {
+		c.hook("get/id")
+	}
+	return c.id
+}
+func (c *viewClient) Username() string {
+	if c.hook != nil {
+		c.hook("get/username")
+	}
+	return c.user
+}
 func (c *viewClient) Init(u string, p []string)    { c.user = u; c.perms = p }
 func (c *viewClient) Data() map[string]interface{} { return nil }
-func (c *viewClient) Permissions() []string        { return c.perms }
+func (c *viewClient) Permissions() []string {
+	if c.hook != nil {
+		c.hook("get/permissions")
+	}
+	return c.perms
+}
 func (c *viewClient) PushConn(g *group.Group, id string, up conn.Up, tracks []conn.UpTrack, replace string) error {
 	return nil
 }
@@ -183,13 +198,19 @@ func TestVerif_C14_InterleavedMembership(t *testing.T) {
 		parkWhat, parkNth := "user/add", 1
 		switch {
 		case firstKind == "leave" && parkAt == firstSubject:
-			parkWhat = "joined/leave"
+			// (the group also asks the departing client who it is: each such call is a point where it can be preempted)
+			parkWhat = rapid.SampledFrom([]string{"joined/leave", "get/username", "get/username", "get/id"}).Draw(t, "parkEventLeave")
+			if parkWhat != "joined/leave" {
+				parkNth = rapid.IntRange(1, 3).Draw(t, "parkNthGetter")
+			}
 		case firstKind == "leave":
 			parkWhat = "user/delete"
 		case parkAt == firstSubject:
-			parkWhat = rapid.SampledFrom([]string{"joined/join", "user/add", "user/add"}).Draw(t, "parkEvent")
+			parkWhat = rapid.SampledFrom([]string{"joined/join", "user/add", "user/add", "get/username", "get/permissions", "get/id"}).Draw(t, "parkEvent")
 			if parkWhat == "user/add" {
 				parkNth = rapid.IntRange(1, len(members)+1).Draw(t, "parkNth")
+			} else if strings.HasPrefix(parkWhat, "get/") {
+				parkNth = rapid.IntRange(1, 3).Draw(t, "parkNthGetter")
 			}
 		}
 		if rapid.IntRange(0, 9).Draw(t, "offPath") == 0 {
